@@ -45,6 +45,34 @@ func TestC19(t *testing.T) {
 	s3again.first = []w.Event{evb("setTemplate", edsKey, "B"), ev("R_eds", edsKey), ev("R_eds", edsKey), ev("R_ers", "ns/"+crs), ev("gone", "ns/"+canaryRSName("A")+"-n1"), ev("R_ers", "ns/"+crs), ev("ready", "ns/"+crs+"-n1"), ev("R_ers", "ns/"+crs),
 		evb("kubectl", edsKey, "canary-pause"), ev("R_eds", edsKey), ev("R_ers", "ns/"+crs),
 		evb("kubectl", edsKey, "canary-unpause"), ev("R_eds", edsKey), ev("R_ers", "ns/"+crs), ev("R_eds", edsKey)}
+	// a replica set that was a failed canary, was validated all the same (it is active, its Canary-Failed condition went
+	// back to False), was superseded by C and is the canary AGAIN because the user re-applied B while it still had pods
+	s3back := corpusS3(nodes, "1", "auto", 1, &w.Alpha{Kubectl: []string{"canary-fail", "canary-pause"}})
+	s3back.name = "S3-canary-again-after-fail-validate-supersede"
+	s3back.first = nil
+	s3back.prepare = func(t *testing.T, sc *w.Scenario, s0 *w.State) *w.State {
+		do := func(s *w.State, e w.Event) *w.State {
+			out := w.Step(t, sc, s, e)
+			if out.CmdErr != nil {
+				panic(fmt.Sprintf("prepare %s: %s failed: %v", sc.Name, e, out.CmdErr))
+			}
+			return out.Next
+		}
+		settle := func(s *w.State) *w.State {
+			r := w.Closure(t, sc, s, w.ClosureOpts{SkipJumps: true, MaxStep: 10 * time.Second})
+			if !r.Converged {
+				panic("prepare " + sc.Name + ": " + r.Why)
+			}
+			return r.Final
+		}
+		s := settle(do(s0, evb("setTemplate", edsKey, "B")))                                              // canary B runs on one node
+		s = do(do(s, evb("kubectl", edsKey, "canary-fail")), evb("kubectl", edsKey, "canary-validate")) // failed, validated at once
+		s = settle(s)                                                                                     // B is active everywhere
+		s = settle(do(s, evb("setTemplate", edsKey, "C")))                                                // canary C runs
+		s = do(do(s, evb("kubectl", edsKey, "canary-validate")), ev("R_eds", edsKey))                     // C promoted, B still has pods
+		s = do(do(s, evb("setTemplate", edsKey, "B")), ev("R_eds", edsKey))                               // B is the canary again
+		return s
+	}
 	type st struct {
 		sc *w.Scenario
 		s  *w.State
@@ -53,7 +81,7 @@ func TestC19(t *testing.T) {
 	perSc := map[string]int{} // closure starts kept per scenario (a single cap would be used up by the first scenario)
 	seenSc := map[string]int{}
 	k := 0
-	runWorld(t, run, []scOpt{s2, s3, s3m, s3again}, []func(*w.MonCtx){w.MonC19}, 0, func(sc *w.Scenario, s *w.State, d int) {
+	runWorld(t, run, []scOpt{s2, s3, s3m, s3again, s3back}, []func(*w.MonCtx){w.MonC19}, 0, func(sc *w.Scenario, s *w.State, d int) {
 		if s.Mem["lastcmd"] != "" {
 			k++
 			seenSc[sc.Name]++
